@@ -116,7 +116,10 @@ def run_grid(case, res):
         res.count("repeated_distribution_patterns")
     fam = [{"Uniform": "uniform", "Triangle": "triangle", "Normal": "normal"}[i[0]] for i in infos]
     boundary = False if "normal" in fam else rng.random() < 0.5
-    an, bn = np.array(a, dtype=float), np.array(b, dtype=float)
+    mode = rng.choice(hooks.INPUT_MODES) if rng.random() < 0.2 else "float_array"
+    an, bn = hooks.typed(a, mode), hooks.typed(b, mode)
+    if mode != "float_array":
+        res.count("bounds_given_as_" + mode)
     if len(set(infos)) > 1:
         res.count("mixed_parameters_same_bounds")
     if len(set(infos)) == 1 and infos[0][0] == "Triangle" and len(set(zip(a, b))) > 1:
@@ -209,7 +212,10 @@ def run_run(case, res):
         pk = hooks.comp_peak([rng.uniform(0.2, 0.8) for _ in range(d)], 0.3)
         g = lambda p: sm([(x - ak) / wk for x, ak, wk in zip(p, a, w)]) + pk([(x - ak) / wk for x, ak, wk in zip(p, a, w)])
     model = hooks.VFunction([g, lambda p: c_ * g(p) + e_, lambda p: const])
-    an, bn = np.array(a, dtype=float), np.array(b, dtype=float)
+    mode = rng.choice(hooks.INPUT_MODES) if rng.random() < 0.2 else "float_array"
+    an, bn = hooks.typed(a, mode), hooks.typed(b, mode)
+    if mode != "float_array":
+        res.count("bounds_given_as_" + mode)
     lmax = rng.choice([2, 2, 3]) if d < 3 else 2
     profile = rng.choice(["real", "real", "uniform", "sparse", "ties", "single"])
     maxev = rng.choice([30, 80, 150]) if d < 3 else rng.choice([80, 200])
